@@ -148,6 +148,11 @@ func runC11(c *Ctx) {
 		// alive; the retry is refused, and the tunnel's end releases everything all the same
 		p.DupIn, p.DupAfter = 2, c.T.Choose(len(p.Pkts)+1)
 	}
+	if tr == "legacy" && c.T.Bool(1, 5) {
+		// a client that is slow to start: seconds pass between the acceptance of its incoming
+		// channel and the first byte it sends
+		p.PreambleDelay = time.Duration(2+c.T.Choose(50)) * time.Second
+	}
 	// data in flight at the moment of the end: stall one direction at the gateway
 	inflight := c.T.Bool(1, 2) && strings.HasPrefix(point, "data")
 	tw.Tuns = StartTunnels(c, tw.Plans)
@@ -165,13 +170,14 @@ func runC11(c *Ctx) {
 	}
 	cl := t.Client
 	stalled := false
+	finished := false      // the tunnel under test is over: no more faults are placed
 	clientStopped := false // the client stopped reading after the set-up was complete
 	if inflight && hostData && c.T.Bool(1, 2) {
 		// the client stops reading once host data has started to arrive: from then on only
 		// relay writes are held
 		inflight = false
 		c.S.AddActor("F client-stops-reading", func() bool {
-			if stalled || c.S.Draining {
+			if stalled || c.S.Draining || finished {
 				return false
 			}
 			for _, e := range cl.Events {
@@ -192,7 +198,7 @@ func runC11(c *Ctx) {
 		})
 	}
 	if inflight {
-		c.S.AddActor("F inflight-stall", func() bool { return !stalled && len(cl.Sent) >= 4 && !c.S.Draining }, func() {
+		c.S.AddActor("F inflight-stall", func() bool { return !stalled && len(cl.Sent) >= 4 && !c.S.Draining && !finished }, func() {
 			stalled = true
 			for _, e := range c.S.Ends() {
 				if e.Auto || e.Owned || e.Closed {
@@ -326,6 +332,26 @@ func runC11(c *Ctx) {
 	}
 	if len(leaks) > 0 {
 		c.S.Fail("C11", sig, "%s end=%s at=%s inflight=%v: %s", tr, cause, point, inflight, strings.Join(leaks, "; "))
+	}
+	if len(leaks) == 0 && ended && tr == "legacy" && c.T.Bool(1, 3) {
+		// 6. nothing of the ended tunnel is left under its connection id: the same client comes
+		// back under the same id and gets a tunnel of its own
+		finished = true
+		c.S.Draining = false
+		c.S.Advance(time.Duration(c.T.Choose(90)) * time.Second)
+		p2 := &TunPlan{Name: "r1", Transport: "legacy", From: p.From, ConnID: p.ConnID, User: p.User, AllowedHost: p.AllowedHost, AccessToken: p.AccessToken, CloseAfter: -1}
+		p2.Pkts = []CPkt{PHandshake(tw.MC.ServerCaps, 1, 0)}
+		t2 := StartTunnels(c, []*TunPlan{p2})
+		c.S.Run(func() bool {
+			return t2[0].Client.Failed != "" || t2[0].Err != "" || len(t2[0].Client.Packets()) >= 1 || t2[0].Client.Ended()
+		}, 4000, 20*time.Second)
+		c.S.Run(nil, 200, time.Second)
+		c.S.Count("probe.client_returns_under_the_same_id")
+		if pk := t2[0].Client.Packets(); len(pk) < 1 || pk[0].Pkt.Type != codec.PktHandshakeResponse || pk[0].Pkt.Status != 0 {
+			c.S.Fail("C11", "ended-tunnel-not-forgotten", "%s end=%s at=%s: after the tunnel ended and was released, the same client returns under the same connection id %q and gets no tunnel of its own (setup=%q %q, events=%s)", tr, cause, point, p.ConnID, t2[0].Client.Failed, t2[0].Err, t2[0].Client.Describe())
+		}
+		t2[0].Client.CloseAll(false)
+		Drain(c, 2000)
 	}
 	c.S.Count("probe.end." + cause)
 	c.Res.Reach = ended
